@@ -233,6 +233,8 @@ Definition wrun_step (hm : N) (ws : list wregion) (s : step) : list wregion * ou
   | SGuest o => let out := run_gop hm (abs_state ws) o in (wapply_effs ws (o_effs out), out)
   | SReset ri => (upd_nth ws ri (on_bm bm_reset), done 0 [])
   | SResetRange ri off len => (upd_nth ws ri (on_bm (fun b => bm_reset_addr_range b off len)), done 0 [])
+  | SCopy ri ch rj doff dlen =>
+      let out := run_copy (abs_state ws) ri ch rj doff dlen in (wapply_effs ws (o_effs out), out)
   end.
 Fixpoint wrun_steps (hm : N) (ws : list wregion) (ss : list step) : list wregion :=
   match ss with [] => ws | s :: r => wrun_steps hm (fst (wrun_step hm ws s)) r end.
@@ -354,7 +356,9 @@ Lemma wrun_step_commutes hm ws s : wwfs ws ->
   wwfs (fst (wrun_step hm ws s)) /\
   run_step hm (abs_state ws) s = (abs_state (fst (wrun_step hm ws s)), snd (wrun_step hm ws s)).
 Proof.
-  intros H. destruct s as [ri ch o|o|ri|ri off len]; cbn [wrun_step run_step].
+  intros H. destruct s as [ri ch o|o|ri|ri off len|ri ch rj doff dlen]; cbn [wrun_step run_step].
+  5:{ cbn [fst snd]. destruct (wapply_effs_commutes (o_effs (run_copy (abs_state ws) ri ch rj doff dlen)) ws H) as [H1 H2].
+      split; [exact H1|]. rewrite H2. reflexivity. }
   - unfold abs_state at 1. rewrite nth_error_map. destruct (nth_error ws ri) as [w|]; cbn [option_map fst snd].
     + destruct (derive_chain (root (abs_region w)) ch) as [a|]; cbn [fst snd]; [|split; [exact H|reflexivity]].
       destruct (wapply_effs_commutes (o_effs (run_sop ri hm a o)) ws H) as [H1 H2].
@@ -403,12 +407,13 @@ Proof.
 Qed.
 Lemma wgeo_step hm ws s : map wgeo (fst (wrun_step hm ws s)) = map wgeo ws.
 Proof.
-  destruct s as [ri ch o|o|ri|ri off len]; cbn [wrun_step].
+  destruct s as [ri ch o|o|ri|ri off len|ri ch rj doff dlen]; cbn [wrun_step].
   - destruct (nth_error ws ri) as [w|]; [|reflexivity].
     destruct (derive_chain _ ch); cbn [fst]; [apply wgeo_effs|reflexivity].
   - apply wgeo_effs.
   - apply wgeo_upd.
   - apply wgeo_upd.
+  - apply wgeo_effs.
 Qed.
 Lemma wgeo_nth ws ws' j w : map wgeo ws' = map wgeo ws -> nth_error ws j = Some w ->
   exists w', nth_error ws' j = Some w' /\ wgeo w' = wgeo w.
